@@ -5,7 +5,9 @@
    word names, double-quoted non-empty attributes on the start tag's line (any blanks before, between and after them), text without '<', any whitespace between elements,
    self-closing or empty-pair form, any repetition count; no element nested in one of the same name; depth within the reader's
    limit) the reader model returns exactly the tree's data in its documented shape, and anything before the KSR element is
-   ignored. That the real documents are such trees and that the reader model is the real reader is the correspondence. *)
+   ignored. The tree's data is what an XML 1.0 parser reports for the same text whenever attribute values and texts contain no '&',
+   tab or carriage return (no entities, no attribute-value or line-end normalisation to apply) - a tab in an attribute value is the
+   recorded difference (known finding). That the real documents are such trees and that the reader model is the real reader is the correspondence. *)
 From Coq Require Import String Sorting.Permutation.
 From KV Require Import Base.Prelude Base.Exn Base.Bytes Model.Data Model.KsrPolicy Model.Xml Proofs.LoadProofs Proofs.PopProofs
   Spec.KeyRules Model.XmlTree Proofs.XmlTreeProofs.
